@@ -681,6 +681,36 @@ theorem C03_fast_range_all_empty (lo hi : BndN) (colMin colMax : Nat) (full : Bo
         ∀ v, colMin ≤ v → v ≤ colMax → v ≤ FastRange.U64MAX → inRangeN lo hi v = false) :=
   FastRange.classify_all_empty lo hi colMin colMax full
 
+/-- the cardinality condition of the AllScorer shortcut as the source has it: taken for Full
+columns only (`column.index.get_cardinality() == Cardinality::Full`). Read by the extractor; this
+theorem stops compiling when the source extends the shortcut to another cardinality. -/
+theorem C03_fast_range_shortcut_extracted :
+    FastRange.Shortcut.extracted = FastRange.Shortcut.onlyFull := by
+  decide
+
+/-- document level, for the code as it is: on a Full, Optional or Multivalued column (a document
+holds exactly one / at most one / any number of values, zero included) the scorer built by
+`search_on_u64_ff` selects a document iff one of ITS values lies within the bounds; a document
+without a value never matches, also when the range covers the whole column -/
+theorem C03_fast_range_doc_sound (lo hi : BndN) (colMin colMax : Nat) (card : FastRange.Card)
+    (vs : List Nat) (hcard : card.admits vs)
+    (hvs : ∀ v ∈ vs, colMin ≤ v ∧ v ≤ colMax ∧ v ≤ FastRange.U64MAX) :
+    (FastRange.classifyC FastRange.Shortcut.extracted lo hi colMin colMax card).selectsDoc vs
+      = vs.any (inRangeN lo hi) := by
+  rw [C03_fast_range_shortcut_extracted]
+  exact FastRange.classifyC_doc_sound _ rfl rfl lo hi colMin colMax card vs hcard hvs
+
+/-- the restriction is necessary: with the shortcut extended to Multivalued (or Optional) columns a
+document without a value matches every range that covers [column min, column max] -/
+theorem C03_fast_range_shortcut_beyond_full_counterexample :
+    (FastRange.classifyC ⟨true, false, true⟩ (.incl 0) .unb 3 9 .multivalued).selectsDoc [] = true
+    ∧ (FastRange.classifyC ⟨true, true, false⟩ (.incl 3) (.incl 9) 3 9 .optional).selectsDoc [] = true
+    ∧ ([] : List Nat).any (inRangeN (.incl 0) .unb) = false
+    ∧ FastRange.Card.admits .multivalued [] ∧ FastRange.Card.admits .optional [] := by
+  refine ⟨by decide, by decide, by decide, trivial, ?_⟩
+  show ([] : List Nat).length ≤ 1
+  decide
+
 /-! ## range over a numeric JSON path: bound type × column type -/
 
 /-- `search_on_json_numerical_field` + `transform_from_f64_bounds`: for every bound kind (inclusive /
